@@ -114,5 +114,45 @@ Section Step.
       rw_pcs; cbn in *; intros; try discriminate; try (intuition congruence).
     all: try (match goal with E : fmq s = _ |- _ => rewrite E in * end; cbn in *;
               use_imps; intuition (try congruence; try discriminate)).
+    all: try (match goal with H : Some (notify_fm ?f) = Some FWaitDone |- _ => destruct f; discriminate H end).
   Qed.
 End Step.
+
+(* ---------- Inv holds in every reachable state ---------- *)
+Lemma forallb_map_gen {A B} (f : B -> bool) (m : A -> B) l :
+  (forall a, f (m a) = true) -> forallb f (map m l) = true.
+Proof. intros Hm; induction l; simpl; auto. rewrite Hm, IHl; auto. Qed.
+
+Lemma inv_init kinds nfm dsk sf : Inv (init kinds nfm dsk sf).
+Proof.
+  constructor; simpl; intros; auto; try discriminate; try lia; try tauto;
+    try (apply forallb_map_gen; reflexivity);
+    try (destruct dsk; auto; try discriminate; split; intros; discriminate);
+    try (split; intros; try discriminate; tauto).
+  - rewrite count_map_CStart. reflexivity.
+  - split; intros H; try discriminate. apply nth_map_some in H. destruct H as (a & _ & Ha). discriminate.
+  - apply nth_repeat in H. discriminate.
+Qed.
+
+Lemma inv_step s l s' : Inv s -> step default_guards s l = Some s' -> Inv s'.
+Proof.
+  intros HI HS.
+  pose proof (inv_scalar s s' l HI HS) as (A1 & A2 & A3 & A4 & A5 & A6 & A7 & A8 & A9 & A10 & A11 & A12).
+  pose proof (inv_rc s s' l HI HS) as (B1 & B2).
+  pose proof (inv_rdv s s' l HI HS) as (C1 & C2 & C3).
+  pose proof (inv_pw s s' l HI HS) as (D1 & D2 & D3 & D4).
+  pose proof (inv_mw s s' l HI HS) as (E1 & E2 & E3 & E4).
+  constructor; auto.
+  - eapply inv_cold; eauto.
+  - eapply inv_after; eauto.
+  - eapply inv_apply; eauto.
+  - eapply inv_unp; eauto.
+  - eapply inv_pk; eauto.
+  - eapply inv_wp; eauto.
+  - eapply inv_fm; eauto.
+Qed.
+
+Lemma inv_reachable s : reachable default_guards s -> Inv s.
+Proof.
+  induction 1. apply inv_init. eapply inv_step; eauto.
+Qed.
